@@ -28,6 +28,30 @@ CHECKS = {
             "Exploration, exhaustive over the +-3 s / 1 ms / +-1 ns grids around all 18 leap seconds, the airtime helper domains, all 256 EIRP indices and (thorough) the complete 10.6 M point airtime grid; instants/durations 1980..2100 and float32 powers are sampled. Oracles: leap seconds as calendar dates anchored to published GPS second counts, AN1200.13 in scaled integer arithmetic with a derived truncation tolerance, the TXParamSetupReq table written out.",
             "Trusted: the 18 leap-second dates (IERS), the Semtech formula as transcribed, the EIRP table of LoRaWAN 1.0.3/1.1.",
             "DESIGN.md §4 C20"),
+    "C04": ("rapid-generated join/rejoin/join-accept frames x keys x JoinReqType/JoinEUI/DevNonce; differential against own CMAC and AES-ECB models; metamorphic single-input perturbations",
+            "Exploration: the MIC set for join-requests, rejoin-requests 0/1/2 and join-accepts (1.0 form and OptNeg form) is compared with a reference CMAC over the wire model; validation must accept exactly that value and answer single-input perturbations exactly as the reference does; the join-accept ciphertext must be byte-identical to AES-decrypt-ECB over payload|MIC for both sizes, be recoverable by a device-side AES-encrypt, and decrypt back through the library to payload and MIC.",
+            "Trusted: ref.JoinMIC / ref.JoinAcceptMIC / ref.JoinAcceptEncrypt (LoRaWAN 1.0.3 §6.2, 1.1 §6.2), crypto/aes, the wire model.",
+            "DESIGN.md §4 C04"),
+    "C05": ("rapid-generated sender/receiver histories; round trip + differential against an independent sender; single-bit and single-parameter tampering (metamorphic) judged by the reference MIC",
+            "Exploration: generated frames x versions x key sets run through the full library pipeline on both sides; the receiver must recover the content; the bytes on the air must equal a sender built only from reference models; for sampled (quick) or all (second sub-check) single-bit corruptions and for single-parameter mismatches, validation must fail whenever the reference MIC of what the receiver sees differs from the received MIC. Known finding K6 (MHDR RFU bits) is excluded by position and counted.",
+            "Trusted: wire model, keystream / FOpts / MIC models, crypto/aes.",
+            "DESIGN.md §4 C05"),
+    "C06": ("exhaustive enumeration of all MHDR/FCtrl/DLSettings bytes, all byte strings of every <= 2-byte MAC payload and every CID x direction; rapid-generated values of the 3-5 byte payloads and arbitrary bytes of join/CFList/FHDR structures; differential against a table-driven wire model in both directions",
+            "Exploration, exhaustive for the one-byte headers, the 22 payload types of <= 2 bytes (2^8 / 2^16 byte strings each) and the registry; the larger payloads and the join / CFList / FHDR structures are sampled with boundary bias. Both directions: value -> bytes must equal the model encoding, bytes (with noise in reserved bits) -> value must equal the model decoding with RFU bits ignored.",
+            "Trusted: the field tables in harness/internal/ref/wire.go written from LoRaWAN 1.0.3/1.1 §4-§6 (DutyCycleReq accepted in both the 4-bit and the 1.0.0/1.0.1 whole-byte reading; RXParamSetupReq DLSettings bit 7 and FCtrl bits modelled raw as the library documents; NewChannelReq 2.4 GHz 200 Hz extension as the library documents).",
+            "DESIGN.md §4 C06"),
+    "C07": ("rapid-generated payload values over the full Go-type domains (lossless-or-error), generated command streams up to the FOpts / port-0 limits, and generated proprietary-registration histories against a model map (registry reset through the verif hook)",
+            "Exploration: for every payload type, full-domain values must either be refused or decode back to themselves (1/256 s resolution for DeviceTimeAns), and in-range values must be accepted; streams of commands (incl. payload-less and unknown CIDs) must encode to the model framing and decode to exactly the sequence in FOpts and on port 0; histories of register/lookup/stream operations must agree with a model of the registry. Known finding K2 is excluded by class and counted.",
+            "Trusted: field ranges and framing rule of harness/internal/ref/wire.go; the verif hook VerifResetMACPayloadRegistry.",
+            "DESIGN.md §4 C07"),
+    "C16": ("rapid-generated worlds and requests through http.Handler.ServeHTTP judged by an independent end-device + network-server model; generated concurrent batches under the race detector compared with sequential answers",
+            "Exploration: generated devices, KEK tables and join / rejoin 0-1-2 / HomeNS requests (plus bit-flip, wrong-key, unknown-device and 16 kinds of malformed requests) are served by the handler; the device model decrypts the join-accept, verifies the MIC, checks the echoed fields, unwraps the envelopes (RFC 3394 model) and compares the session keys with its own 1.0 / 1.1 derivation. The -race binary serves batches of 2..16 requests concurrently and requires answers byte-identical to sequential service. Known finding K4 (rejoin keys derived 1.0-style) is accepted as exactly one alternative key set and reported.",
+            "Trusted: ref crypto models (CMAC, key wrap, join blocks), wire model; observed handler conventions listed in the package comment (NS KEK label = SenderID, JoinEUI = ReceiverID).",
+            "DESIGN.md §4 C16"),
+    "C18": ("value-first generation from per-field bit-width tables (TS003-TS006), exhaustive for payloads of <= 1 byte and for all sub-byte field combinations, rapid-generated commands and 1-6 command sequences per package and direction, multicast keys against single-block AES models",
+            "Exploration, exhaustive for all in-range values of the single-byte payloads and the sub-byte bit-fields of every multi-byte payload; wide fields, sequences, keys and addresses are sampled. Oracle: no panic, encoded length == Size() == specification length, decode gives the same command / sequence; McRootKey/McKEKey/McAppSKey/McNetSKey equal the TS005 AES derivations. Known finding K5 (DevVersionReq rejects a following command) is excluded by class with a witness.",
+            "Trusted: the width tables in harness/c18/specs_test.go, ref multicast derivations over crypto/aes, the library decoder for the one unexported field nextFirmwareVersion.",
+            "DESIGN.md §4 C18"),
     "C11": (
         "exhaustive enumeration of all 2^24 NetIDs + rapid-generated (DevAddr, NetID) near-miss pairs and identifier representations against an arithmetic reference model",
         "Exploration, complete for the NetID dimension: every one of the 2^24 NetIDs is pushed through SetAddrPrefix/IsNetID/NwkID/Type/ID with four DevAddr patterns and compared with an arithmetic model of the addressing rule in both tiers; membership near misses and text/binary/SQL round trips (incl. wrong lengths 0..20) are generated with rapid. The DevAddr dimension and the representation values are sampled, not exhausted.",
